@@ -240,7 +240,9 @@ func runReal(e *env, cls int) {
 		failM(c, m, "uninterrupted run")
 	}
 	rc.ref = refImg
+	w.judgingUninterrupted = true
 	rc.checkFinal(refImg, rc.fF, "uninterrupted run", "", false)
+	w.judgingUninterrupted = false
 	c.Evals++
 
 	switch cls {
